@@ -317,8 +317,14 @@ func (c *Ctx) registerStd(tab map[string]intrinsicFn) {
 		if iv.T != nil {
 			n = typeString(iv.T)
 		}
-		return IfaceV{T: c.rtypeT(), V: RTypeV{Name: n}}
+		return IfaceV{T: c.rtypeT(), V: RTypeV{Name: n, Kind: -1, Size: -1}}
 	}
+	// locks: the interpreter runs one goroutine, so acquiring and releasing never blocks and changes nothing
+	for _, n := range []string{"(*sync.Mutex).Lock", "(*sync.Mutex).Unlock", "(*sync.RWMutex).Lock", "(*sync.RWMutex).Unlock", "(*sync.RWMutex).RLock", "(*sync.RWMutex).RUnlock"} {
+		n := n
+		tab[n] = func(c *Ctx, fn *ssa.Function, a []Value) Value { c.E.Stubs[n]++; return nil }
+	}
+	tab["(*sync.Mutex).TryLock"] = func(c *Ctx, fn *ssa.Function, a []Value) Value { return c.St.True() }
 	// reflect.Value of an interpreter value: only what length queries need
 	tab["reflect.ValueOf"] = func(c *Ctx, fn *ssa.Function, a []Value) Value {
 		iv, _ := a[0].(IfaceV)
